@@ -86,6 +86,15 @@ def enumerate_cases(tier: str):
         for kind in ("read", "failed", "base"):
             for mode in ("fresh", "persistent"):
                 yield {"kind": "hist", "listen_mode": mode, "ops": [["rx", f"0;255;3;0;2;{report}\n"], ["read_error", kind], ["probe", "edge"], ["read_error", kind], ["rx", "0;255;3;0;9;log\n"]]}
+    # the gateway node itself is asked to present again (it sent something for an unknown child), then reports a new release
+    for first in ("1.5.1", "2.0.0", "2.1.1", "2.2.0"):
+        for then in ("1.4", "2.0.0", "2.2.0", "2.3.2"):
+            if first == then:
+                continue
+            for form_a in ("0;255;0;0;18;{}\n", "0;255;3;0;2;{}\n"):
+                for form_b in ("0;255;0;0;18;{}\n", "0;255;0;1;18;{}\n", "0;255;3;0;2;{}\n"):
+                    ops = [["rx", form_a.format(first)], ["rx", "0;255;0;0;18;" + first + "\n"], ["rx", "0;7;1;0;0;1\n"], ["rx", "0;7;2;0;0;\n"], ["rx", form_b.format(then)], ["probe", "edge"]]
+                    yield {"kind": "hist", "listen_mode": "persistent" if len(then) % 2 else "fresh", "ops": ops}
     # one gateway object, every type probed under version A, then again after the gateway reported version B
     reports = (None, "1.4", "1.5.1", "2.0.0", "2.1.1", "2.2.0", "2.3.2")
     for first in reports:
@@ -116,6 +125,9 @@ def _hist_ops():
                     ["rx", "0;255;3;0;14;Gateway startup complete.\n"],
                     ["rx", "1;255;3;0;22;5\n"],
                     ["rx", "junk\n"],
+                    ["rx", "0;7;1;0;0;1\n"],
+                    ["rx", "0;7;2;1;0;\n"],
+                    ["rx", "0;255;3;0;0;55\n"],
                     ["session"],
                     ["session"],
                     ["probe", "edge"],
